@@ -464,6 +464,11 @@ def guard_views(E, e):
     return out
 
 
+# lazy adapters (besides iters.LAZY_WITH_CLOSURE) whose closure / inner iterator runs only when the result is pulled
+LAZY_MORE = {iters.IT + 'flat_map', iters.IT + 'flatten', iters.IT + 'zip', iters.IT + 'chain', iters.IT + 'enumerate', iters.IT + 'peekable',
+             iters.IT + 'skip', iters.IT + 'take', iters.IT + 'step_by', iters.IT + 'fuse', iters.IT + 'rev', iters.IT + 'cycle', iters.IT + 'by_ref'}
+
+
 # ---- in-order partitions of a slice parameter -----------------------------------------------------------------------
 IT = iters.IT
 ORDERED_SAME = {IT + 'copied', IT + 'cloned', IT + 'by_ref', IT + 'peekable', IT + 'fuse'}
@@ -530,3 +535,159 @@ def partitions(sl, E, fn, idx, is_marker):
                 if is_marker(m):
                     out.append(Partition(fn, L, 'segments', m))
     return out
+
+
+# ---- data provenance at statement level (what the slicer's value terms do not show: in-place mutation) ---------------
+VIEW_CALLS = ('std::ops::Deref::deref', 'std::vec::Vec::<T, A>::as_slice', 'std::convert::AsRef::as_ref', 'std::borrow::Borrow::borrow',
+              'std::boxed::Box::<T>::new')
+
+
+WHY = []       # why the last origins() calls gave up ('edited: ..' = a definite in-place modification)
+
+
+def _clean_local(fn, local):
+    """`local` holds one value from its single definition to its last use: never re-assigned, never written in part,
+    never mutably borrowed (so no `&mut self` method can have edited it in place)"""
+    if 1 <= local <= fn.argc:
+        if fn.whole_defs(local):
+            return False
+    elif len(fn.whole_defs(local)) != 1:
+        return False
+    if fn.partial_defs(local):
+        return False
+    return not any(how in ('refmut', 'rawptr') for _, _, _, how, _ in fn.uses_of(local))
+
+
+def origins(prog, fn, op, depth=0):
+    """the call(s) that produced the data in operand `op` of fn, following it backwards through moves, copies, shared
+    reborrows, one-element tuples, Deref-like views and — when it arrives as a parameter of a private function — every
+    call site of that function.  None as soon as a local on the way is not `_clean_local` or the data comes from
+    anything else (a constant, a field, a phi of several definitions): [Call] or None"""
+    pl = op_place(op)
+    if pl is None or depth > 12:
+        return None
+    local = pl[0]
+    if any(not (p == '*' or p == '.0') for p in pl[1:]):
+        return None
+    if not _clean_local(fn, local):
+        WHY.append('edited: %s of %s is re-assigned, written in part or mutably borrowed between its definition and its use' % (fn.local_name(local) or '_%d' % local, fn.path.split('::')[-1]))
+        return None
+    if 1 <= local <= fn.argc:
+        if fn.kind == 'Closure' or fn.vis == 'pub':
+            return None
+        out = []
+        sites = prog.callers().get(fn.path, [])
+        for c in sites:
+            if c.indirect or len(c.args) < local:
+                return None
+            r = origins(prog, c.fn, c.args[local - 1], depth + 1)
+            if r is None:
+                return None
+            out.extend(r)
+        return out or None
+    d = fn.whole_defs(local)[0]
+    if d[0] == 'call':
+        c = d[3]
+        if c.is_(*VIEW_CALLS) and c.args:
+            return origins(prog, fn, c.args[0], depth + 1)
+        return [c]
+    if d[0] != 'stmt':
+        return None
+    rv = d[3]
+    if rv['r'] in ('use', 'cast'):
+        return origins(prog, fn, rv['o'], depth + 1)
+    if rv['r'] == 'ref' and not rv['mut']:
+        return origins(prog, fn, {'c': rv['p']}, depth + 1)
+    if rv['r'] == 'cfd':
+        return origins(prog, fn, {'c': rv['p']}, depth + 1)
+    if rv['r'] == 'agg' and rv.get('kind') == 'tuple' and len(rv['ops']) == 1:
+        return origins(prog, fn, rv['ops'][0], depth + 1)
+    return None
+
+
+def field_mutations(prog, fn, field):
+    """every statement-level way in which fn can change `<anything>.field` in place:
+    [(kind, fn, bb, Call|None, arg index|None)] with kind
+      'call'    a `&mut <..>.field` borrow (reborrows and captures by a closure followed) handed to a call as argument #idx
+      'assign'  the field (or a part of it) is assigned / is the destination of a call
+      'move'    the field is moved out
+      'escape'  the `&mut` borrow is stored or used in any other way"""
+    proj = '.' + field
+    out = []
+
+    def follow(g, local, depth=0):
+        if depth > 8:
+            out.append(('escape', g, None, None, None))
+            return
+        for bi, kind, idx, how, pl in g.uses_of(local):
+            if kind == 'drop':
+                continue
+            if kind == 'stmt':
+                tgt = g.blocks[bi]['s'][idx][1]
+                rv = g.blocks[bi]['s'][idx][2]
+                if how == 'ref' and pl[1:] == ['*']:
+                    continue        # shared reborrow: read-only
+                if how in ('refmut', 'm', 'c') and (pl[1:] == ['*'] or len(pl) == 1) and len(tgt) == 1 and rv['r'] in ('ref', 'use'):
+                    follow(g, tgt[0], depth + 1)
+                    continue
+                if how in ('m', 'c') and len(pl) == 1 and rv['r'] == 'agg' and rv.get('kind') == 'closure' and prog.fns.get(rv.get('def')) is not None:
+                    # captured by a closure: go on with the uses of that upvar inside the closure body
+                    ns = [n for n, o in enumerate(rv['ops']) if op_place(o) == pl]
+                    if len(ns) == 1 and upvar(prog.fns[rv['def']], ns[0], depth + 1):
+                        continue
+                out.append(('escape', g, bi, None, None))
+            elif kind == 'arg':
+                out.append(('call', g, bi, g.call_at(bi), idx))
+            else:
+                out.append(('escape', g, bi, None, None))
+
+    def upvar(c, n, depth):
+        """follow upvar #n (a `&mut` borrow) inside closure body c; False when it is used in a way that is not understood"""
+        fld = '.%d' % n
+        ok = True
+        for bi, kind, idx, how, pl in c.uses_of(1):
+            rest = pl[2:] if pl[1:2] == ['*'] else pl[1:]
+            if not rest or rest[0] != fld:
+                continue
+            if kind != 'stmt':
+                ok = False
+                continue
+            tgt = c.blocks[bi]['s'][idx][1]
+            rv = c.blocks[bi]['s'][idx][2]
+            if how == 'ref' and rest[1:] == ['*']:
+                continue
+            if len(tgt) == 1 and ((rv['r'] in ('use', 'cfd') and rest[1:] == []) or (how == 'refmut' and rest[1:] == ['*'])):
+                follow(c, tgt[0], depth + 1)
+                continue
+            ok = False
+        return ok
+
+    for bi, b in enumerate(fn.blocks):
+        for s in b['s']:
+            if s[0] != '=':
+                continue
+            if proj in s[1][1:]:
+                out.append(('assign', fn, bi, None, None))
+            rv = s[2]
+            if rv['r'] in ('ref', 'rawptr') and proj in rv['p'][1:] and (rv['r'] == 'rawptr' or rv['mut']):
+                # a borrow of the field itself or of something inside it
+                if len(s[1]) == 1:
+                    follow(fn, s[1][0])
+                else:
+                    out.append(('escape', fn, bi, None, None))
+            for pl, how in _rv_places(rv):
+                if how == 'm' and proj in pl[1:]:
+                    out.append(('move', fn, bi, None, None))
+        t = b['t']
+        if t['t'] == 'call':
+            if proj in t['dest'][1:]:
+                out.append(('assign', fn, bi, None, None))
+            for a in t.get('args', []):
+                if 'm' in a and proj in a['m'][1:]:
+                    out.append(('move', fn, bi, None, None))
+    return out
+
+
+def _rv_places(rv):
+    from .lib.mir import _rvalue_places
+    return list(_rvalue_places(rv))
